@@ -12,8 +12,9 @@ CONSTANTS
   MaxOps = 4
   Dev = {}
   Anns <- MCAnns
+  InvOf <- MCInvOf
 INIT Init
 NEXT Next
 VIEW view
-INVARIANTS EmitInv C10_StoreFresh C10_NoEcho C10_NoEchoReplay C10_RelayStored C11_Refs C29_OwnStoredBelowCounter
-PROPERTIES C10_Monotone C11_InventoryAtCreation C29_Increasing
+INVARIANTS EmitInv C10_StoreFresh C10_NoEcho C10_NoEchoReplay C10_RelayStored C11_Refs C29_OwnStoredBelowCounter RoutingJustified RoutingKnownNodes
+PROPERTIES C10_Monotone C11_InventoryAtCreation C29_Increasing OwnRoutingPublicAtStart
